@@ -75,6 +75,21 @@ class _Outcome(Exception):
     pass
 
 
+import logging as _logging
+
+
+class SlowHandler(_logging.Handler):
+    """a log handler that takes its time (a remote or synchronous sink): configured by the generated logging
+    sections, it stretches every window inside the runtime code that logs"""
+
+    def __init__(self, delay=0.002):
+        super().__init__()
+        self.delay = float(delay)
+
+    def emit(self, record):
+        time.sleep(self.delay)
+
+
 def section_digest(content):
     """a section plugin (entry point cobald.config.sections: verifsection)"""
     emit("section", "verifsection", content=repr(content)[:80])
